@@ -1188,7 +1188,7 @@ pub fn time_3(hour_value: &Value, minute_value: &Value, second_value: &Value) ->
   if let Value::Number(hour) = hour_value {
     if let Value::Number(minute) = minute_value {
       if let Value::Number(second) = second_value {
-        if (0..24).contains(hour) && (0..60).contains(minute) && (0..60).contains(second) {
+        if (0..24).contains(hour) && (0..60).contains(minute) && (0..60).contains(second) && hour.trunc() == *hour && minute.trunc() == *minute {
           let seconds = second.trunc();
           let nanoseconds = (second.fract() * FeelNumber::nano()).trunc();
           if let Some(feel_time) = FeelTime::new_hms_opt(
@@ -1211,7 +1211,7 @@ pub fn time_4(hour_value: &Value, minute_value: &Value, second_value: &Value, du
   if let Value::Number(hour) = hour_value {
     if let Value::Number(minute) = minute_value {
       if let Value::Number(second) = second_value {
-        if (0..24).contains(hour) && (0..60).contains(minute) && (0..60).contains(second) {
+        if (0..24).contains(hour) && (0..60).contains(minute) && (0..60).contains(second) && hour.trunc() == *hour && minute.trunc() == *minute {
           let seconds = second.trunc();
           let nanoseconds = (second.fract() * FeelNumber::nano()).trunc();
           match duration_value {
